@@ -2,8 +2,9 @@ From Coq Require Extraction.
 From Coq Require Import ExtrOcamlBasic.
 From NV Require Import Base.Witness Fasta.Layout Fasta.Indexer Fasta.Query Fasta.Reader Fasta.Fastq
                        Io.Source Fasta.Delivery Fasta.Bgzip Fasta.ViaFile Fasta.AsyncQuery Fasta.FastqGrammar
-                       Fasta.BgzipGzi Fasta.BgzipBytes Fasta.BgzipFile Fasta.FastqIndexGrammar.
+                       Fasta.BgzipGzi Fasta.BgzipBytes Fasta.BgzipFile Fasta.FastqIndexGrammar Fasta.QueryPos.
 Extraction "model.ml" nv_types_witness lines index_file index_and_query_many reader_query_gen write_record
   read_file write_file write_qfile read_qfile index_qfile index_and_query_delivered naive_file
   index_bgzf index_and_query_bgzf via_file_many index_via_file index_and_async_query fq_accepts
-  index_and_query_bgzf_any index_and_query_bgzf_file fqi_accepts.
+  index_and_query_bgzf_any index_and_query_bgzf_file fqi_accepts
+  index_and_query_delivered_pos index_and_query_pos_closed.
